@@ -457,7 +457,18 @@ impl OpSource for GenOps {
         if self.forked && ok && self.dropped.is_none() {
             // collisions: the sibling session is made to define the SAME names, differently
             // (a copied session must not see, or be influenced by, its sibling's definitions)
-            let defs = std::mem::take(&mut self.last_defines);
+            let mut defs = std::mem::take(&mut self.last_defines);
+            // structs are in no name list (not part of `defines`): taken from the text
+            if let Some(t) = self.last_ok_text.get(session) {
+                for line in t.lines() {
+                    if let Some(rest) = line.strip_prefix("struct ")
+                        && let Some(name) = rest.split_whitespace().next()
+                        && name.starts_with("Sq")
+                    {
+                        defs.push((name.to_string(), "struct"));
+                    }
+                }
+            }
             let other = if session == "C" {
                 Some(&mut self.gen_p)
             } else {
